@@ -606,43 +606,29 @@ func rawExtractSuffixes(re *syntax.Regexp, ci bool) []string {
 		return result
 
 	case syntax.OpConcat:
-		// Try the full extractLiterals pipeline first (handles deeper nesting
-		// through the trieReconstruct fallback it already calls).
-		lits := extractLiterals(re, ci)
-		if lits != nil {
-			switch v := lits.(type) {
-			case allRequired:
-				// Only safe to return a single trie suffix when the concat
-				// collapses to exactly one contiguous literal. Multiple
-				// allRequired elements mean there are wildcards between them
-				// (e.g. "elect.*from" → allRequired{"elect","from"}). Joining
-				// them would produce "electfrom" — a phantom string that never
-				// appears contiguously in a real input — causing false negatives
-				// on valid matches like "select x from". Return nil here so the
-				// caller falls back to the safer anyRequired propagation instead.
-				if len(v) == 1 {
-					return []string{v[0]}
+		// The suffix is glued to the caller's prefix, so it must be what every match of this
+		// concat *begins* with: only the first child can provide it. A literal found further
+		// inside (e.g. "22" in `.22`) would be joined over whatever precedes it and produce a
+		// phantom string that a matching input need not contain.
+		if len(re.Sub) == 0 {
+			return nil
+		}
+		first := rawExtractSuffixes(re.Sub[0], ci)
+		if first == nil {
+			return nil
+		}
+		// [literal, alternation] is the nested trie shape: extend the literal with what every
+		// match of the second child begins with (e(?:lect|t) → "elect", "et").
+		if re.Sub[0].Op == syntax.OpLiteral && len(re.Sub) == 2 {
+			if rest := rawExtractSuffixes(re.Sub[1], ci); rest != nil {
+				result := make([]string, 0, len(rest))
+				for _, s := range rest {
+					result = append(result, first[0]+s)
 				}
-				return nil
-			case anyRequired:
-				return []string(v)
-			case combinedRequired:
-				// For trie-reconstruction we need a suffix that is *always* present
-				// when this sub-concat fires. The .all elements are guaranteed;
-				// .any elements are only conditionally present (one of them must be
-				// present, but not a specific one). Returning a .any element would
-				// let the outer prefix combine with a wrong suffix (e.g. "s"+"execute"
-				// instead of "s"+"p_"+"execute" → "sp_execute"), producing a phantom
-				// literal that never appears contiguously in real input.
-				// Return the single longest .all element as the guaranteed suffix.
-				rep := longest([]string(v.all))
-				if rep == "" {
-					return nil
-				}
-				return []string{rep}
+				return result
 			}
 		}
-		return nil
+		return first
 
 	case syntax.OpCapture:
 		return rawExtractSuffixes(re.Sub[0], ci)
